@@ -889,10 +889,23 @@ def check_fit(tn, name, ns, kind, seed, extra):
         if name == 'anova':
             Z = tn.anova(I, y, r=extra.get('r', 2), order=extra.get('order', 1), seed=12)
         elif name == 'als':
-            Y0 = tn.rand(ns, extra.get('r', 2), seed=3) if not extra.get('zero_init') else tn.const(ns, 0.)
+            y0 = 'zero' if extra.get('zero_init') else extra.get('y0', 'rand')
+            Y0 = {'rand': lambda: tn.rand(ns, extra.get('r', 2), seed=3),
+                  'zero': lambda: tn.const(ns, 0.),
+                  'zero_rand': lambda: tn.mul(tn.rand(ns, extra.get('r', 2), seed=3), 0.),
+                  'const_sum': lambda: tn.add(tn.const(ns, 1.), tn.const(ns, 1.)) if len(ns) > 1 else tn.const(ns, 2.),
+                  'ones': lambda: tn.const(ns, 1.)}[y0]()
+            kw = {}
+            if 'lamb' in extra:                       # absent = the default; None and 0. are documented values
+                kw['lamb'] = extra['lamb']
             info = {}
-            Z = tn.als(I, y, Y0, nswp=extra.get('nswp', 3), info=info, I_vld=I, y_vld=y if extra.get('vld') else None,
-                       e_vld=1e-12 if extra.get('vld') else None)
+            vs = extra.get('vld_scale')
+            yv = (y * vs if np.any(y) else np.full(len(y), vs)) if vs else (y if extra.get('vld') else None)
+            Z = tn.als(I, y, Y0, nswp=extra.get('nswp', 3), info=info, I_vld=I if yv is not None else None, y_vld=yv,
+                       e_vld=1e-12 if yv is not None else None, **kw)
+            for key in ('e', 'e_vld'):
+                if key in info and info[key] is not None and not np.isfinite(info[key]):
+                    return dict(what=f"als info['{key}'] = {info[key]!r} (neither finite nor the sentinel -1)", input=inp)
         elif name == 'cross':
             val = {'zero': 0., 'constant': 2.}.get(kind)
             a = [np.array([float(1 + (i % 3)) for i in range(n)]) for n in ns]
@@ -901,8 +914,18 @@ def check_fit(tn, name, ns, kind, seed, extra):
             else:
                 f = lambda X: np.full(len(X), val)  # noqa
             Y0 = tn.rand(ns, extra.get('r', 1), seed=5)
-            Z = tn.cross(f, Y0, m=extra.get('m', 400), e=None, nswp=extra.get('nswp', 3), dr_min=extra.get('dr', 1),
-                         dr_max=extra.get('dr', 1) + 1, info={}, cache={} if extra.get('cache') else None)
+            info = {}
+            vs = extra.get('vld_scale')
+            kwc = {}
+            if vs or 'e_vld' in extra:
+                fy = f(I)
+                kwc = dict(I_vld=I, y_vld=(fy * vs if np.any(fy) else np.full(len(I), vs)) if vs else fy,
+                           e_vld=extra.get('e_vld', 1e-12))
+            Z = tn.cross(f, Y0, m=extra.get('m', 400), e=extra.get('e'), nswp=extra.get('nswp', 3), dr_min=extra.get('dr', 1),
+                         dr_max=extra.get('dr', 1) + 1, info=info, cache={} if extra.get('cache') else None, **kwc)
+            for key in ('e', 'e_vld'):
+                if key in info and info[key] is not None and not np.isfinite(info[key]):
+                    return dict(what=f"cross info['{key}'] = {info[key]!r} (neither finite nor the sentinel -1)", input=inp)
         else:
             raise KeyError(name)
     except Exception as e:  # noqa
@@ -970,6 +993,25 @@ def check_misc(tn, what, arg):
                 y = np.array([float(np.prod(1. + x)) for x in X])
             Z = tn.anova_func(X, y, arg['n'], **arg.get('kw', {}))
             ns = [arg['n']] * d if isinstance(arg['n'], int) else list(arg['n'])
+        elif what == 'als_func':
+            rr = C.Rng(arg['seed'])
+            d, m, n = arg['d'], arg['m'], arg['n']
+            X = np.array([[rr.choice([-1., -0.5, 0., 0.25, 0.5, 1.]) for _ in range(d)] for _ in range(m)])
+            X = np.vstack([X, X[: m // 2]])                                   # repeated samples
+            y = {'zero': np.zeros(len(X)), 'constant': np.full(len(X), 2.)}.get(arg['kind'])
+            if y is None:
+                y = np.array([float(np.prod(1. + x)) for x in X])
+            A0 = {'rand': lambda: tn.rand([n] * d, arg.get('r', 2), seed=4), 'zero': lambda: tn.const([n] * d, 0.),
+                  'zero_rand': lambda: tn.mul(tn.rand([n] * d, arg.get('r', 2), seed=4), 0.),
+                  'const_sum': lambda: tn.add(tn.const([n] * d, 1.), tn.const([n] * d, 1.))}[arg['y0']]()
+            kw = {}
+            if 'lamb' in arg:
+                kw['lamb'] = arg['lamb']
+            info = {}
+            Z = tn.als_func(X, y, A0, nswp=2, info=info, **kw)
+            ns = [n] * d
+            if 'e' in info and info['e'] is not None and not np.isfinite(info['e']):
+                return dict(what=f"als_func info['e'] = {info['e']!r} (neither finite nor the sentinel -1)", input=inp)
         elif what == 'matrix_svd':
             A = np.array(arg['A'], dtype=float)
             U, V = tn.matrix_svd(A, **{k: arg[k] for k in ('e', 'r') if k in arg})
@@ -1013,7 +1055,7 @@ def _replay_one(tn, inp):
         return check_scale(tn, inp['what'], tt_of_json(inp['Y']), inp['kwargs'], inp['tol'])
     if r in ('anova', 'als', 'cross'):
         return check_fit(tn, r, inp['ns'], inp['kind'], inp['seed'], inp['extra'])
-    if r in ('tt_to_qtt', 'svd_matrix', 'func_int', 'matrix_svd', 'matrix_skeleton', 'core_tt_to_qtt', 'anova_func'):
+    if r in ('tt_to_qtt', 'svd_matrix', 'func_int', 'matrix_svd', 'matrix_skeleton', 'core_tt_to_qtt', 'anova_func', 'als_func'):
         return check_misc(tn, r, inp['arg'])
     return None
 
@@ -1132,6 +1174,42 @@ def search(R, ctx, deep, hints):
             for extra in (dict(r=1), dict(r=2, cache=True, dr=0)):
                 n_eval += 1
                 add(check_fit(tn, 'cross', ns, kind, seed, extra))
+    # 4b. documented values of the regularisation / accuracy parameters (default, None, 0., tiny) x singular families
+    LAMB = [dict(), dict(lamb=None), dict(lamb=0.), dict(lamb=1e-300)]
+    for ns in [[3, 2], [1, 3], [3, 1, 2], [2, 2, 2]] + ([[4, 3, 2], [2, 1, 1, 2]] if deep else []):
+        for kind in ('zero', 'constant', 'rank1', 'delta'):
+            seed = rng.randrange(10 ** 6)
+            for y0 in ('rand', 'zero', 'zero_rand', 'const_sum'):
+                for lk in LAMB:
+                    n_eval += 1
+                    add(check_fit(tn, 'als', ns, kind, seed, dict(r=2, nswp=2, y0=y0, **lk)))
+            for ek in (dict(e=0.), dict(e=1e-10), dict(e_vld=0.), dict(e=0., e_vld=1e-3), dict()):
+                n_eval += 1
+                add(check_fit(tn, 'cross', ns, kind, seed, dict(r=1, nswp=2, m=200, **ek)))
+    for d_ in (2, 3):
+        for kind in ('zero', 'constant', 'rank1'):
+            for y0 in ('rand', 'zero', 'zero_rand', 'const_sum'):
+                for lk in LAMB:
+                    n_eval += 1
+                    add(check_misc(tn, 'als_func', dict(d=d_, m=10, n=3, kind=kind, y0=y0, seed=rng.randrange(10 ** 6), **lk)))
+    # 4c. reference values whose squares underflow / approach overflow: finite value or the sentinel -1, never NaN
+    for ns in ([3, 2], [2, 3, 2]):
+        Ia = [[rng.randrange(n) for n in ns] for _ in range(4)]
+        for Yt in (tn.const(ns, 0.), tn.const(ns, 1.), rand_tt(rng, ns, [1] + [2] * (len(ns) - 1) + [1], 1, 3),
+                   tn.const(ns, 1e-200), tn.const(ns, 1e150)):
+            big_t = float(np.max(np.abs(full(Yt)))) > 1e100
+            for v in (1e-200, 5e-324, 1e-162, 1e-150, 1e150):
+                if big_t and v == 1e-162:
+                    continue       # true relative error ~1e+312 is not a double: inf is the right answer, nothing to check
+                n_eval += 2
+                add(check_aod(tn, Yt, Ia, [v] * len(Ia)))
+                add(check_aod(tn, Yt, Ia, [v * (1 + (k % 2)) * (-1) ** k for k in range(len(Ia))]))
+        for kind in ('zero', 'constant', 'rank1'):
+            seed = rng.randrange(10 ** 6)
+            for v in (1e-200, 5e-324, 1e-162, 1e150):
+                n_eval += 2
+                add(check_fit(tn, 'als', ns, kind, seed, dict(r=2, nswp=2, vld_scale=v)))
+                add(check_fit(tn, 'cross', ns, kind, seed, dict(r=1, nswp=2, m=200, vld_scale=v)))
     # 5. scale families x every routine with a use_stab path, plus accuracy
     sfam = {}
     for fam, Y, tol in scale_catalogue(rng, big=deep):
@@ -1157,6 +1235,9 @@ def search(R, ctx, deep, hints):
                          families=fam_count, scale_families=sfam))
     # observation outside the property (lead's decision): erank of a one-dimensional tensor
     try:
+        v200 = tn.accuracy_on_data(tn.const([3, 2], 0.), np.array([[0, 0], [1, 1], [2, 0], [1, 1]]), np.full(4, 1e200))
+        R.notes.append(f'observation (overflow family, reported to the lead, not in the verdict): accuracy_on_data(const([3,2],0.), '
+                       f'[[0,0],[1,1],[2,0],[1,1]], full(4, 1e200)) = {v200!r} (squares of the reference values overflow)')
         R.notes.append(f'observation: erank of a d=1 tensor = {tn.erank([np.ones((1, 3, 1))])!r} (d=1 is outside the '
                        f'families named by the property)')
     except Exception as e:  # noqa
